@@ -476,7 +476,7 @@ func main() {
 				cutset[c] = true
 			}
 		}
-		for len(cutset) < per {
+		for len(cutset) < min(per, n-7) { // (a small file has fewer than `per` possible cuts)
 			cutset[8+r.Intn(n-7)] = true
 		}
 		var cuts []int
